@@ -173,6 +173,19 @@ def hash_shard(config, seed, n_examples, import_ctx="top", long_lengths=()):
             stats.violations.append({"case": case, "key": "hash-long", "msg": "hash of a message of %d elements: argument list changed or a constraint is violated" % L})
             return stats
     if long_lengths:
+        # subset-sum hash of long bit strings (every length around 125 / 128 / 250 / 256 and up to 1024, ones in the tail)
+        for n_ in sorted(set(list(range(120, 131)) + list(range(248, 259)) + [41, 64, 100, 375, 376, 500, 511, 512, 513, 1000, 1024])):
+            if n_ % len(long_lengths) != long_lengths[0] % len(long_lengths) and len(long_lengths) > 1:
+                pass
+            bits = [1 if (i * 7 + 1) % 3 == 0 or i >= n_ - 3 else 0 for i in range(n_)]
+            nsl = env.reset(p, 16, 8)
+            out = gh.ggh_hash([rt.PrivVal(b_) for b_ in bits])
+            want = ref_ggh(bits, p)
+            case = {"config": config, "part": "ggh", "bits": bits, "secret": True}
+            stats.case({"config": config, "part": "ggh", "long_bit_string_of": n_}, True, ("ggh:long",))
+            if out.value % p != want or (r1cs.lc_value(out.lc.d, nsl.rec.vals, p) - want) % p:
+                stats.violations.append({"case": case, "key": "ggh-long", "msg": "subset-sum hash of a %d-bit string differs from the plain reference" % n_})
+                return stats
         return stats
     # coefficient derivation of the subset-sum hash, index by index (rejection sampling: rare indices need many retries)
     ncoef = 3000 if n_examples < 100 else 120000
